@@ -524,7 +524,14 @@ func (ch c02) Run(c *core.Ctx) {
 		}
 		good := hs.Op{K: "row", Vals: []any{"a", "b", "c"}}
 		done := hs.Op{K: "complete", Tag: "SELECT 1"}
-		for v, ops := range [][]hs.Op{{bad(3, 1)}, {bad(3, 2)}, {good, bad(3, 2)}, {bad(3, 1), bad(3, 2)}, {bad(3, 2), good}, {bad(3, 1), done}, {good, bad(3, 1), hs.Op{K: "empty"}}} {
+		// (... also after a first value of 70 KB or 200 KB went into the frame)
+		big := func(n, at int) hs.Op {
+			op := bad(3, at)
+			op.Vals[0] = strings.Repeat("L", n)
+			return op
+		}
+		for v, ops := range [][]hs.Op{{bad(3, 1)}, {bad(3, 2)}, {good, bad(3, 2)}, {bad(3, 1), bad(3, 2)}, {bad(3, 2), good}, {bad(3, 1), done}, {good, bad(3, 1), hs.Op{K: "empty"}},
+			{big(70000, 1)}, {big(200000, 2), good}, {big(66000, 1), hs.Op{K: "err", Err: &hs.ErrSpec{Base: "gives up"}}}, {good, big(70000, 2), done}} {
 			sess := &hs.Sess{Progs: map[string]*hs.Prog{
 				"g": {Stmts: []*hs.Stmt{{ID: "g", Cols: textCols(3), Ops: ops}}},
 				"p": {Stmts: []*hs.Stmt{{ID: "p", Cols: textCols(1), Ops: []hs.Op{{K: "row", Vals: []any{"p"}}, done}}}}}}
